@@ -18,7 +18,7 @@ import ast
 from ..core.cfg import cfg_of
 from ..core.defuse import rd_of, Expander, term_contains
 from ..core.loader import unparse, FunctionInfo, AnalysisError
-from ..core.resolve import resolve_callee, ext_name
+from ..core.resolve import resolve_callee, ext_name, bind_args
 from ..rules import pathkinds as PK
 from ..rules import tempdirs as TD
 from ..rules import workers as W
@@ -132,6 +132,7 @@ def check(ctx):
     check_outputs_created_afresh(ctx, pa)
     check_stale_output_removed(ctx)
     check_directories_only_by_mkdtemp(ctx)
+    check_append_follows_create(ctx)
     check_finalisers_release(ctx)
     # settings this property depends on are handed down every call
     # chain, never left to a callee's default (sa/rules/forwarding.py)
@@ -1209,3 +1210,87 @@ def check_directories_only_by_mkdtemp(
            f'no directory is created in worker code or under a scratch '
            f'parameter other than by mkdtemp ({n_other} other creation(s) '
            'not judged)', nontrivial=True)
+
+
+def _open_mode(call):
+    """(path expression, mode) of an h5py.File(...) / open(...) call"""
+    f = call.func
+    nm = f.attr if isinstance(f, ast.Attribute) else getattr(f, 'id', None)
+    if nm not in ('File', 'open') or not call.args:
+        return None
+    mode = 'r'
+    if len(call.args) > 1 and isinstance(call.args[1], ast.Constant):
+        mode = call.args[1].value
+    for kw in call.keywords:
+        if kw.arg == 'mode' and isinstance(kw.value, ast.Constant):
+            mode = kw.value.value
+    return call.args[0], mode
+
+
+def check_append_follows_create(ctx, rule='R-FRESH/append-follows-create'):
+    """a function that adds to a file it was given the path of (an open
+    in mode 'a' / 'r+') builds on whatever is at that path -- unless the
+    same function has, on *every* path to that open, first created the
+    file (an open in mode 'w', directly or in a callee whose first open of
+    the path is 'w').  Where the creating open sits on one branch only (a
+    run that succeeded), the other branch (a failed run that still writes
+    its log) appends to the file an earlier run left there."""
+    db = ctx.db
+    n = 0
+    for fi in db.iter_functions():
+        if fi.module.short not in ('utils.output_utils',):
+            continue
+        cfg = cfg_of(fi)
+        rd = rd_of(fi)
+        events = []          # (node id, path param name, mode, call)
+        for node in cfg.nodes:
+            if node.id not in rd.live:
+                continue
+            for c in cfg.calls_in(node):
+                om = _open_mode(c)
+                if om is not None and isinstance(om[0], ast.Name) \
+                        and om[0].id in fi.params:
+                    events.append((node.id, om[0].id, om[1], c))
+                    continue
+                t = resolve_callee(db, fi, c)
+                if isinstance(t, FunctionInfo):
+                    m, _ = bind_args(t, c)
+                    for pname, a in m.items():
+                        if isinstance(a, ast.Name) and a.id in fi.params:
+                            first = None
+                            for c2 in ast.walk(t.node):
+                                if isinstance(c2, ast.Call):
+                                    o2 = _open_mode(c2)
+                                    if o2 is not None and isinstance(
+                                            o2[0], ast.Name) \
+                                            and o2[0].id == pname:
+                                        if first is None or getattr(
+                                                c2, 'lineno', 0) < first[0]:
+                                            first = (getattr(c2, 'lineno',
+                                                             0), o2[1])
+                            if first is not None:
+                                events.append((node.id, a.id, first[1], c))
+        by_path = dict()
+        for ev in events:
+            by_path.setdefault(ev[1], []).append(ev)
+        for pth, evs in sorted(by_path.items()):
+            creates = [e for e in evs if e[2] in ('w', 'w-', 'x', 'wb')]
+            appends = [e for e in evs if e[2] in ('a', 'r+', 'ab')]
+            if not creates or not appends:
+                continue
+            for e in appends:
+                n += 1
+                ok = any(c_[0] != e[0] and cfg.dominates(c_[0], e[0])
+                         for c_ in creates)
+                ctx.touch(fi)
+                ctx.ob(rule, f'{fi.qual}:{pth}#{n - 1}', fi.loc(e[3]), ok,
+                       f'`{pth}` has been created afresh on every path to '
+                       'this append' if ok else
+                       f'`{unparse(e[3])[:60]}` adds to `{pth}` on a path '
+                       'on which this function has not created it: the '
+                       'file an earlier run left there is extended (or the '
+                       'write fails on names that already exist), so what '
+                       'a failed run leaves behind depends on history')
+    if n < 1:
+        raise AnalysisError('no create-then-append pair found among the '
+                            'output writers')
